@@ -69,6 +69,8 @@ func (ex *Exec) callFn(fr *Frame, st *State, pc *Term, fn *ssa.Function, args []
 		return ex.specForall(fr, st, pc, args[0]), pc
 	case "verif_forall_range":
 		return ex.specForallRange(fr, st, pc, args[0].(VBV).T, args[1].(VBV).T, args[2]), pc
+	case "verif_validated":
+		return VBool{And(Not(Eq(args[0].(VPtr).T, C64(0))), ex.validatedPred(st, pc, fn.Signature.Params().At(0).Type(), args[0], 0))}, pc
 	case "verif_same":
 		// identity of two references (maps, pointers, slices): equal representation
 		a, b := toLeaves(args[0]), toLeaves(args[1])
@@ -848,7 +850,7 @@ func checkLinearAddrs(fn *ssa.Function, addrs []ssa.Value) string {
 			case *ssa.UnOp: // load
 				for _, u := range *x.Referrers() {
 					switch y := u.(type) {
-					case *ssa.DebugRef, *ssa.Return, *ssa.IndexAddr:
+					case *ssa.DebugRef, *ssa.Return, *ssa.IndexAddr, *ssa.MakeInterface:
 					case *ssa.Store:
 						// copying into the anonymous result cell just before returning
 						ra, ok := y.Addr.(*ssa.Alloc)
